@@ -24,7 +24,8 @@ RULE = ("stub cases: tripeptides X-ALA-ALA / ALA-X-ALA / ALA-ALA-X for X in ASP 
         "groups of every chain) x six force fields, pH uniform in [0,14], pKa in {random, = pH, pH +- 1e-9}; cell = "
         "(group, position, force field, side of the pKa); all 276 reachable cells must be hit. sweep cases: one "
         "structure, fixed pKa table, 9-15 pH values (stub) / 29 pH values (real PROPKA on fragments). Non-trivial: "
-        "every cell; distinct = cell x pKa relation class")
+        "every cell; distinct = cell x pKa relation class"
+        ' Round-2 additions: four-character residue numbers (>= 1000, <= -100); residues sharing name, number and chain that differ only by insertion code with mixed pKa sides; the rows real PROPKA returns are judged group by group like the stubbed tables.')
 ASSUMPTIONS = ["the stub reproduces PROPKA 3.5.1's row schema (res_num, ins_code, res_name, chain_id, group_label "
                "'%-3s%4d%2s', pKa; terminal groups labelled 'N+ ' / 'C- ' with the residue's own res_name)",
                "'can parameterise' = the independent force-field model has a row for every atom the topology defines "
